@@ -113,7 +113,7 @@ func (s *life) Build(w *World) {
 	// the input class of the recorded C15/C16 finding, seen from the node: something was built into a message
 	// queue after every queue instance started for that peer had been told to shut down
 	s.qStarted, s.qShutdown, s.builtIntoShutdown = map[string]int{}, map[string]int{}, map[string]bool{}
-	w.OnYieldSite = func(site, detail, node string) {
+	w.OnYieldSite = func(site, detail, node string, _ any) {
 		if site != "messagequeue.afterBuild" {
 			return
 		}
